@@ -267,6 +267,7 @@ func (fr *Frame) execBlock(b *ssa.BasicBlock, skip int, reach T, st *State) {
 			base := fr.structLV(x.X, x, reach)
 			lv := ex.fieldLV(base, x.Field)
 			fr.lvals[x] = lv
+			fr.guardCheck(x, base, reach, st)
 			if lv.kind != "comp" {
 				fr.vals[x] = lv.ref
 			}
@@ -531,7 +532,15 @@ func (fr *Frame) unop(x *ssa.UnOp, reach T, st *State) {
 		}
 		v := ex.define(fr.vname(x), ex.load(st, lv))
 		fr.vals[x] = v
-		fr.assumeLoaded(v, x.Type(), reach, st)
+		// a value read from a component that has not been written since entry was already in the heap at entry:
+		// what it refers to was allocated then (so it differs from everything this function allocates)
+		// A component that was written may hold references to objects a callee allocated, which the caller's
+		// allocation map does not know: no allocatedness is assumed for those.
+		if lv.kind == "comp" && ex.get(st, lv.comp).s == lv.comp+"$init" {
+			fr.assumeLoaded(v, x.Type(), reach, fr.entry)
+		} else {
+			fr.assumeLoaded(v, x.Type(), reach, nil)
+		}
 	case token.ARROW: // channel receive
 		v := ex.freshOfType(fr.vname(x), chanElem(x.X.Type()), reach, st)
 		if x.CommaOk {
@@ -638,7 +647,11 @@ func (fr *Frame) lookup(x *ssa.Lookup, reach T, st *State) {
 		h := and(not(eq(m, tNil)), sel(sel(ex.get(st, has), m), k))
 		v := ite(h, sel(sel(ex.get(st, val), m), k), ex.sorts.zero(u.Elem()))
 		v = ex.define(fr.vname(x), v)
-		fr.assumeLoaded(v, u.Elem(), reach, st)
+		if ex.get(st, val).s == val+"$init" {
+			fr.assumeLoaded(v, u.Elem(), reach, fr.entry)
+		} else {
+			fr.assumeLoaded(v, u.Elem(), reach, nil)
+		}
 		if x.CommaOk {
 			fr.tuples[x] = []T{v, ex.define(fr.vname(x)+"_ok", h)}
 		} else {
@@ -819,7 +832,11 @@ func (fr *Frame) next(x *ssa.Next, reach T, st *State) {
 		reach.s, ok.s, ks, hasRow.s, vis.s, hasRow.s))
 	ex.set(st, visName, ite(ok, store(vis, k, tTrue), vis))
 	v := ex.define(fr.vname(x)+"_v", sel(sel(ex.get(st, val), m), k))
-	fr.assumeLoaded(v, mt.Elem(), and(reach, ok), st)
+	if ex.get(st, val).s == val+"$init" {
+		fr.assumeLoaded(v, mt.Elem(), and(reach, ok), fr.entry)
+	} else {
+		fr.assumeLoaded(v, mt.Elem(), and(reach, ok), nil)
+	}
 	fr.tuples[x] = []T{ok, k, v}
 }
 
@@ -871,4 +888,77 @@ func (fr *Frame) runDefers(reach T, st *State) {
 		merged := ex.mergeStates([]T{armed, not(armed)}, []*State{st2, st})
 		st.m = merged.m
 	}
+}
+
+// guardCheck: `guarded_by T.f mu` - every access to x.f (through a pointer to an object that existed at entry) happens
+// with x.mu held: read or write lock for loads, write lock for stores. The access kind is taken from the uses of the
+// field address.
+func (fr *Frame) guardCheck(x *ssa.FieldAddr, base *LV, reach T, st *State) {
+	ex := fr.ex
+	if base.kind != "struct" || len(ex.L.contracts.Guarded) == 0 {
+		return
+	}
+	nt, ok := types.Unalias(base.typ).(*types.Named)
+	if !ok || nt.Obj().Pkg() == nil {
+		return
+	}
+	stt := base.typ.Underlying().(*types.Struct)
+	g, ok := ex.L.contracts.Guarded[nt.Obj().Pkg().Path()+"."+nt.Obj().Name()+"."+stt.Field(x.Field).Name()]
+	if !ok {
+		return
+	}
+	mi := -1
+	for i := 0; i < stt.NumFields(); i++ {
+		if stt.Field(i).Name() == g.Mutex {
+			mi = i
+		}
+	}
+	if mi < 0 {
+		panic(engineErr("stale-contract", "%s: no field %s in %s", g.Where, g.Mutex, nt.Obj().Name()))
+	}
+	mref := ex.subRef(base.ref, base.typ, mi)
+	isStore, isLoad := false, false
+	if refs := x.Referrers(); refs != nil {
+		for _, r := range *refs {
+			switch u := r.(type) {
+			case *ssa.Store:
+				if u.Addr == x {
+					isStore = true
+				}
+			case *ssa.UnOp:
+				isLoad = true
+			}
+		}
+	}
+	gf := func(name string) T {
+		d, ok := ex.L.contracts.GhostFields[name]
+		if !ok {
+			panic(engineErr("stale-contract", "guarded_by needs ghost field %s", name))
+		}
+		env := &Env{ex: ex, cur: st, old: st, vars: map[string]Val{}, pkgPath: d.PkgPath, callerPkg: ex.pkg}
+		comp, _ := env.ghostFieldComp(d)
+		return sel(ex.get(st, comp), mref)
+	}
+	var held T
+	mt := stt.Field(mi).Type().String()
+	if strings.HasSuffix(mt, "RWMutex") {
+		w, r := gf("wheld"), gf("rheld")
+		if isStore {
+			held = w
+		} else {
+			held = or(w, app("Bool", ">", r, intLit(0)))
+		}
+	} else {
+		held = gf("held")
+	}
+	_ = isLoad
+	// objects allocated by this very function are not shared yet
+	fresh := not(sel(ex.get(fr.entry, ex.allocComp()), base.ref))
+	kind := "read"
+	if isStore {
+		kind = "write"
+	}
+	props := g.Props
+	ex.oblige("lock:"+nt.Obj().Name()+"."+stt.Field(x.Field).Name()+":"+kind, "lock", props, reach, or(fresh, held), ex.pos(instrPos(x)),
+		fmt.Sprintf("%s.%s is accessed with %s held (guarded_by, %s)", nt.Obj().Name(), stt.Field(x.Field).Name(), g.Mutex, relPath(g.Where)))
 }
